@@ -6,7 +6,11 @@ chains (two levels), lists and unions are built by the real schema parser, intro
 (converter identity, white space, validator functions, facet objects and their decoded values) and
 sent to the Lean driver `drv_c02` together with a text; the lax outcome of the real
 `XsdSimpleType.decode` (value + error classes) is compared with the model's.  `pattern` facets and
-`float()` have no Lean semantics: the model consumes the implementation's own verdicts (traced).
+`float()` have no Lean semantics: the model consumes the implementation's own verdicts (traced) -- except the
+pattern facets inside a regular-expression subset, which the model evaluates itself (Model/DatatypesPat: verified
+matcher; the patterns of restricted unions travel through the validation context, `decodeS`).  Values of one document
+(sibling elements, attributes) are validated in one lax run and compared with `decodeSeq` and with the verdict of each
+type on its own (`document_level`).
 
 Unit correspondence (`unit_ops`): every model function that a theorem of Props/C02.lean is about is compared on
 generated inputs with the function of /repo (or elementpath) it ports: normalize() of the three white-space modes
@@ -40,27 +44,34 @@ LEAN_TARGETS = ['XsVerif.Props.C02', 'drv_c02']
 LEANCHECK = ['XsVerif.Model.Datatypes', 'XsVerif.Model.DatatypesDate', 'XsVerif.Model.DatatypesEnc',
              'XsVerif.Lemmas.Datatypes', 'XsVerif.Lemmas.DatatypesDec', 'XsVerif.Lemmas.DatatypesEnc',
              'XsVerif.Lemmas.DatatypesWs', 'XsVerif.Lemmas.DatatypesBin', 'XsVerif.Lemmas.DatatypesDateLex',
-             'XsVerif.Lemmas.DatatypesDateRt', 'XsVerif.Props.C02']
+             'XsVerif.Lemmas.DatatypesDateRt', 'XsVerif.Model.DatatypesPat', 'XsVerif.Lemmas.DatatypesPat',
+             'XsVerif.Props.C02']
 RULE = ('a case is one (XSD version, simple type, text); types: every built-in atomic type of both versions, '
-        'seeded restriction chains (facet sets drawn from the admitted set, two derivation levels), lists and '
-        'unions over them; texts: a boundary catalogue per lexical family (bounds +-1, digit-count edges, leap '
+        'seeded restriction chains (facet sets drawn from the admitted set, two derivation levels; pattern facets '
+        'mostly inside the regular-expression subset), lists and unions over them, pattern/enumeration restrictions '
+        'of unions, unions nested in unions, unions as list items; a document case is 2-4 values (elements and '
+        'attributes of those types) validated in one lax run; texts: a boundary catalogue per lexical family (bounds +-1, digit-count edges, leap '
         'days, 24:00:00, timezone limits, sign/zero forms, separators, non-ASCII digits and spaces) plus seeded '
         'character-level mutations; non-trivial = the text is not rejected by the very first lexical check with '
         'an empty value, i.e. it is valid, or it is invalid with a decoded value (a facet/validator/pattern '
         'branch decided), or it is a near-miss produced by mutating a valid literal; distinct by canonical JSON; '
         'unit cases (one converter/encoder/normaliser call on one text) are non-trivial when the text is accepted '
         '(or changed by the normaliser)')
-TRUSTED = ['pattern facets and Python float(): no Lean semantics, the model consumes the implementation\'s own '
-           'verdicts recorded during the same call (oracle); their correctness is judged only by the independent '
-           'Python reading (float lexical grammar) or not at all (user patterns)',
+TRUSTED = ['Python float() and the pattern facets OUTSIDE the regular-expression subset (\\d \\s \\w \\i \\c \\p{..}, class '
+           'subtraction): no Lean semantics, the model consumes the implementation\'s own verdicts recorded during the '
+           'same call (oracle); judged only by the independent Python reading (float lexical grammar) or not at all',
+           'pattern facets INSIDE the subset (literals, escapes of metacharacters, ., [..], [^..], groups, |, ? * + {n,m}): '
+           'evaluated by the model (verified derivative matcher) and by the Python reading lib_datatypes.rx_match; the '
+           'parser of the XSD pattern text into the AST (lib_datatypes.rx_parse) is shared by both and tied to '
+           'elementpath\'s translation into a Python `re` by the unit correspondence `rx` and by every traced verdict',
            'elementpath date/time classes: the Lean port follows their regular expressions and constructor '
            'checks; ordering of date/time bounds is compared differentially only',
            'independent Python reading of XSD Part 2 in harness/lib_datatypes.py (property oracle)',
            'CPython Decimal.__str__ / format(Decimal, "f") / str(int) and elementpath str(Date), str(HexBinary), '
            'len(Base64Binary) are ported by hand (decRepr, decPlainAbs, natDigits, dateStr, hexUp, b64Len) and tied by the '
            'unit correspondence on generated inputs, not proved against CPython']
-ASSUMPTIONS = ['QName/NOTATION (namespace context), xs:assertion facets and patterns on union restrictions are outside '
-               'the model (skipped, counted in the histogram as unsupported)',
+ASSUMPTIONS = ['QName/NOTATION (namespace context) and xs:assertion facets are outside the model (skipped, counted in the '
+               'histogram as unsupported); round trip is not checked for unions and pattern-restricted types',
                'XSD 1.0 years <= 0000 and 24:00:00 on 31 December of a year outside 1..9999 are not judged '
                '(the recommendation is not settled / elementpath keeps the year)']
 
@@ -290,6 +301,15 @@ DATE_LIT = {'date': ['2000-01-01', '2000-02-29', '1999-12-31Z', '2000-06-15+02:0
             'gMonth': ['--01', '--06Z'], 'gMonthDay': ['--01-01', '--02-29'], 'gDay': ['---01', '---15Z']}
 
 
+# pattern facets: mostly inside the regular-expression subset that the model and the reading evaluate exactly
+# (lib_datatypes.rx_parse); the ones with \d \S stay an oracle (differential only)
+NUM_PATTERNS = [r'[0-9]+', r'-?[0-9]{1,3}(\.[0-9]+)?', r'[0-9]*[05]', r'[+-]?[0-9]+', r'[1-9][0-9]{0,2}', r'\d*[05]']
+STR_PATTERNS = [r'[a-z]*', r'a.*', r'[a-z]{2}(-[A-Z]{2})?', r'.{0,3}', r'[a-c ]+', r'x?[0-9a-f]{2,4}', r'[^ ]+', r'(ab|a)(b|c)*',
+                r'\S+']
+UNION_PATTERNS = [r'[0-9]{3}|true', r'[0-9]{3}|[a-z]+', r'[0-9a-zA-Z]*', r'[0-9]+', r'[a-z]+', r'.{0,4}', r'[0-9\-]+',
+                  r'true|false|[01]', r'[^ ]*', r'[0-9a-z\-:]+', r'[0-9]{1,2}|[0-9]{4}-.*', r'(1|2)[0-9]*|a.*']
+
+
 def gen_facets(rng: Any, root: str, level: int, v11: bool, inherited: dict) -> dict:
     """a facet set admitted for the primitive of `root`; kept consistent enough for the schema to build
     (a schema that fails to build is dropped and counted)"""
@@ -315,7 +335,7 @@ def gen_facets(rng: Any, root: str, level: int, v11: bool, inherited: dict) -> d
         elif k < 0.9:
             f['enumeration'] = [num_literal(rng, integer) for _ in range(rng.randrange(1, 4))]
         else:
-            f['pattern'] = rng.choice([r'[0-9]+', r'-?[0-9]{1,3}(\.[0-9]+)?', r'\d*[05]', r'[+-]?\d+'])
+            f['pattern'] = rng.choice(NUM_PATTERNS)
     elif root in BASES_STR or root in BASES_BIN:
         k = rng.random()
         if k < 0.5:
@@ -332,7 +352,9 @@ def gen_facets(rng: Any, root: str, level: int, v11: bool, inherited: dict) -> d
         elif k < 0.75:
             f['enumeration'] = rng.sample(['0a', '0A', 'ff00', ''] if root == 'hexBinary' else ['YQ==', 'YWI=', 'Y Q = =', ''], 2)
         elif k < 0.9 and root in BASES_STR:
-            f['pattern'] = rng.choice([r'[a-z]*', r'\S+', r'a.*', r'[a-z]{2}(-[A-Z]{2})?', r'.{0,3}'])
+            f['pattern'] = rng.choice(STR_PATTERNS)
+            if rng.random() < 0.2:
+                f['pattern'] = [f['pattern'], rng.choice(STR_PATTERNS)]     # one step, two patterns: alternatives
         if root in ('string', 'normalizedString') and rng.random() < 0.35:
             f['whiteSpace'] = rng.choice(['replace', 'collapse']) if root == 'string' else 'collapse'
     elif root in DATE_LIT:
@@ -423,10 +445,32 @@ def directed_descs(v11: bool) -> list:
             out.append(('u', [first if first[0] != 'b' else ('r', first, {}), ('r', ('b', 'token'), {'maxLength': 12})]))
         if k % 4 == 0:
             out.append(('l', ('u', [first, ('b', 'token')])))
+    out += directed_pattern_unions()
     out.append(('u', [('r', ('b', 'dayTimeDuration' if v11 else 'duration'), {'enumeration': ['PT24H', 'PT1M']}),
                       ('r', ('b', 'short'), {'minExclusive': '-32768'}),
                       ('r', ('r', ('b', 'normalizedString'), {'minLength': 4, 'maxLength': 5}), {'minLength': 4})]))
     return out
+
+
+def directed_pattern_unions() -> list:
+    """pattern facets on restrictions of unions, in every position where the patterns have to reach the right union and
+    only that one: alone, as a member next to a plain union, nested in another pattern-restricted union, as list items,
+    under further restrictions"""
+    int_bool = ('u', [('b', 'integer'), ('b', 'boolean')])
+    code = ('r', int_bool, {'pattern': '[0-9]{3}|true'})
+    date_tok = ('u', [('b', 'date'), ('b', 'token')])
+    inner = ('r', ('u', [('b', 'integer'), ('b', 'token')]), {'pattern': '[0-9]{3}|[a-z]+'})
+    alnum = ('r', ('u', [inner, ('b', 'string')]), {'pattern': '[0-9a-zA-Z]*'})
+    return [code, date_tok, ('u', [code, date_tok]), ('u', [date_tok, code]), ('l', code), ('l', ('u', [code, date_tok])),
+            inner, alnum, ('u', [alnum, ('b', 'date')]), ('l', alnum),
+            ('r', ('u', [code, ('b', 'token')]), {'pattern': '[0-9a-z]+'}),
+            ('r', ('u', [('u', [('b', 'int'), ('b', 'date')]), code, ('b', 'token')]), {'pattern': '[0-9tr\\-]+'}),
+            ('r', code, {'enumeration': ['123', 'true']}),
+            ('r', inner, {'pattern': '[0-9a-c]*'}),                      # two derivation steps with patterns (C02-F12)
+            ('r', ('r', inner, {'enumeration': ['123', 'abc', 'zz']}), {'pattern': '[a-z]*'}),
+            ('r', ('u', [('b', 'int'), ('b', 'string')]), {'pattern': ['[0-9]+', 'a b']}),
+            ('r', ('u', [('r', ('b', 'token'), {'pattern': '[a-z]+'}), ('b', 'int')]), {'pattern': '.{2,3}'}),
+            ('r', ('u', [('l', ('b', 'int')), ('b', 'string')]), {'pattern': '[0-9 ]*'})]
 
 
 def gen_types(rng: Any, v11: bool, n: int) -> list[dict]:
@@ -455,12 +499,22 @@ def gen_types(rng: Any, v11: bool, n: int) -> list[dict]:
                 f = {'enumeration': ['1 2', '3', ' 1  2 ', '']}
             d = ('r', d, f)
         out.append(d)
+    unions: list = []
     for i in range(max(4, n // 4)):
         ms = [rng.choice(atoms + [('b', x) for x in ('int', 'decimal', 'boolean', 'token', 'date', 'string', 'byte',
                                                      'gYear', 'double', 'duration')]) for _ in range(rng.randrange(1, 4))]
+        if unions and rng.random() < 0.35:
+            # a union (possibly pattern-restricted) nested as a member of another union
+            ms.insert(rng.randrange(len(ms) + 1), rng.choice(unions))
         d = ('u', ms)
-        if rng.random() < 0.4:
+        k = rng.random()
+        if k < 0.3:
             d = ('r', d, {'enumeration': rng.sample(['1', 'true', '1.0', 'a', '2000-01-01', '01', ' 1 '], 3)})
+        elif k < 0.75:
+            d = ('r', d, {'pattern': rng.choice(UNION_PATTERNS)})
+            if rng.random() < 0.15:
+                d = ('r', d, rng.choice([{'pattern': rng.choice(UNION_PATTERNS)}, {'enumeration': ['1', 'a']}]))
+        unions.append(d)
         out.append(d)
         if rng.random() < 0.3:
             out.append(('l', d))
@@ -532,8 +586,43 @@ def spec_eq(a: Any, b: Any) -> bool:
     return a == b
 
 
-def spec_type(d: Any, v11: bool, text: str) -> Any:
-    """(valid, value) by XSD Part 2 for a description; 'unjudged' where not judged here"""
+_WS_OF = {'string': 'preserve', 'normalizedString': 'replace'}
+
+
+def _root(d: Any) -> Any:
+    while d[0] == 'r':
+        d = d[1]
+    return d
+
+
+def spec_literal(d: Any, v11: bool, text: str, pin: tuple = ()) -> Optional[str]:
+    """the literal a pattern facet of `d` constrains: the text normalised by the white space in force for the type
+    or, for a union, for the BASIC member that validates it (XSD 1.1 Structures 3.1.4; None: not judged).
+    pin 'F13': as the pinned code does, by the white space of the DIRECT member (a union member: collapse, a
+    restricted-union member: none)"""
+    if d[0] == 'b':
+        return L.xsd_normalize(_WS_OF.get(d[1], 'collapse'), text)
+    if d[0] == 'l':
+        return L.xsd_collapse(text)
+    if d[0] == 'r':
+        ws = d[2].get('whiteSpace')
+        return spec_literal(d[1], v11, L.xsd_normalize(ws, text) if ws else text, pin)
+    for m in union_members_in_built_order(d):
+        r = spec_type(m, v11, text, pin)
+        if r == 'unjudged':
+            return None
+        if r[0]:
+            if 'F13' in pin and _root(m)[0] == 'u':
+                return L.xsd_collapse(text) if m[0] == 'u' else text
+            return spec_literal(m, v11, text, pin)
+    return None
+
+
+def spec_type(d: Any, v11: bool, text: str, pin: tuple = (), _shadow: bool = False) -> Any:
+    """(valid, value) by XSD Part 2 for a description; 'unjudged' where not judged here.
+    `pin`: the reading with pinned defects, used by the matchers of those findings only: 'F12' (over a union only
+    the patterns of the outermost pattern-bearing restriction of a chain of restrictions are applied), 'F13' (see
+    `spec_literal`)"""
     if d[0] == 'b':
         if d[1] in ('language', 'Name', 'NCName', 'ID', 'IDREF', 'ENTITY', 'NMTOKEN'):
             t = L.xsd_collapse(text)
@@ -547,7 +636,7 @@ def spec_type(d: Any, v11: bool, text: str) -> Any:
         vals = []
         ok = True
         for it in items:
-            r = spec_type(d[1], v11, it)
+            r = spec_type(d[1], v11, it, pin)
             if r == 'unjudged':
                 return r
             ok = ok and r[0]
@@ -555,7 +644,7 @@ def spec_type(d: Any, v11: bool, text: str) -> Any:
         return ok, ('l', vals)
     if d[0] == 'u':
         for m in union_members_in_built_order(d):
-            r = spec_type(m, v11, text)
+            r = spec_type(m, v11, text, pin)
             if r == 'unjudged':
                 return r
             if r[0]:
@@ -563,19 +652,29 @@ def spec_type(d: Any, v11: bool, text: str) -> Any:
         return False, None
     if d[0] == 'r':
         f = d[2]
+        groups = None
         if 'pattern' in f:
-            return 'unjudged'
+            # the patterns of one derivation step are alternatives; steps are conjoined (XSD Part 2 4.3.4)
+            groups = L.rx_group(f['pattern'] if isinstance(f['pattern'], list) else [f['pattern']])
+            if groups is None:
+                return 'unjudged'       # outside the regular-expression subset: differential only
         ws = f.get('whiteSpace')
         t = L.xsd_normalize(ws, text) if ws else text
-        r = spec_type(d[1], v11, t)
-        if r == 'unjudged' or not r[0]:
-            return r
-        ok, v = r
         root = d
         while root[0] == 'r':
             root = root[1]
+        over_union = root[0] == 'u'
+        r = spec_type(d[1], v11, t, pin, (_shadow or groups is not None) if over_union and d[1][0] == 'r' else False)
+        if r == 'unjudged' or not r[0]:
+            return r
+        ok, v = r
+        if groups is not None and not ('F12' in pin and _shadow and over_union):
+            lit = spec_literal(d, v11, text, pin)
+            if lit is None:
+                return 'unjudged'
+            ok = ok and any(L.rx_match(g, lit) for g in groups)
         for k, x in f.items():
-            if k == 'whiteSpace':
+            if k in ('whiteSpace', 'pattern'):
                 continue
             if k in ('length', 'minLength', 'maxLength'):
                 if v is None:
@@ -605,7 +704,7 @@ def spec_type(d: Any, v11: bool, text: str) -> Any:
                     ok = ok and fd <= x and q * 10 ** fd < 10 ** x
             elif k == 'enumeration':
                 base = d[1]
-                vals = [spec_type(base, v11, str(e)) for e in x]
+                vals = [spec_type(base, v11, str(e), pin) for e in x]
                 if any(e == 'unjudged' for e in vals):
                     return 'unjudged'
                 if v is None or any(e[1] is None for e in vals if e[0]):
@@ -717,6 +816,26 @@ def known_match(case: dict, detail: Any) -> Optional[str]:
         return None
     if kind == 'spec-valid-impl-invalid' and _has_digit_facets_anywhere(d) and any(_ZERO7.match(i) for i in items):
         return 'C02-F5'
+    # C02-F12: over a union, the patterns of a restriction that finds context.patterns occupied by a derived
+    # restriction are dropped.  Rule: the type contains a restriction with patterns over a restriction with patterns
+    # over a union (restrictions only in between), the implementation accepts what the reading refuses, and the
+    # reading that applies only the outermost patterns of such a chain accepts too
+    if kind == 'spec-invalid-impl-valid' and f12_shape(d):
+        pinned = spec_type(d, case.get('v') == '1.1', text, ('F12',))
+        if pinned != 'unjudged' and pinned[0]:
+            return 'C02-F12'
+    # C02-F13: the patterns of a restricted union are applied to the text as normalised by the DIRECT member that
+    # matched; when that member is itself a union (collapse) or a restriction of a union (no white space) this is
+    # not the normalisation of the basic member that validates.  Rule: the type contains a pattern-restricted union
+    # with such a member, the verdicts differ, and the reading that normalises like the pinned code agrees with the
+    # implementation (alone or together with C02-F12)
+    if kind in ('spec-invalid-impl-valid', 'spec-valid-impl-invalid') and f13_shape(d):
+        for pin, fid in ((('F13',), 'C02-F13'), (('F12', 'F13'), 'C02-F13')):
+            if 'F12' in pin and not f12_shape(d):
+                continue
+            pinned = spec_type(d, case.get('v') == '1.1', text, pin)
+            if pinned != 'unjudged' and pinned[0] == (kind == 'spec-invalid-impl-valid'):
+                return fid
     names = _all_builtin_names(d)
     if kind in ('spec-invalid-impl-valid', 'spec-valid-impl-invalid') and case.get('v') == '1.1' and \
             names & {'date', 'dateTime', 'dateTimeStamp'}:
@@ -801,7 +920,7 @@ def union_member_finding(case: dict, value: Any, sval: Any, allow_f4: bool = Fal
     try:
         for item, val, sv_item in triples:
             fid, first_impl = None, None
-            agreed = False
+            agreed, agreed_case = False, {}
             for m in union_members_in_built_order(inner):
                 r = spec_type(m, v11, item) if fid is None else None
                 if r == 'unjudged':
@@ -823,6 +942,7 @@ def union_member_finding(case: dict, value: Any, sval: Any, allow_f4: bool = Fal
                         return None
                 elif fid is None and ok:
                     agreed = True       # same member for both
+                    agreed_case = {'v': case.get('v'), 'desc': m, 'text': item, '_t': mt, '_oracle': oracle}
                 if first_impl is not None and (fid is not None or agreed):
                     break
             # (no member for either of them: an item refused by both, nothing to explain; a union that the
@@ -832,12 +952,55 @@ def union_member_finding(case: dict, value: Any, sval: Any, allow_f4: bool = Fal
             if fid is not None:
                 found.append(fid)
             elif agreed and value_denotes(val, sv_item, item):
-                return None             # same member, wrong value: not a union effect
+                # same member for both, another value: explained only if that member is itself a union (nested
+                # unions) in which the same rule finds the listed finding
+                sub = union_member_finding(agreed_case, val, sv_item, allow_f4) if _contains_union(agreed_case['desc']) \
+                    else None
+                if sub is None:
+                    return None
+                found.append(sub)
     except Exception:   # noqa  (member not buildable on its own / escapes: leave it to the failure report)
         return None
     finally:
         oracle.take()
     return found[0] if found else None
+
+
+def f12_shape(d: Any) -> bool:
+    """somewhere in the type: restriction with patterns over (restrictions ...) a restriction with patterns over a union"""
+    if d[0] == 'r':
+        if 'pattern' in d[2]:
+            b = d[1]
+            while b[0] == 'r':
+                if 'pattern' in b[2]:
+                    root = b
+                    while root[0] == 'r':
+                        root = root[1]
+                    if root[0] == 'u':
+                        return True
+                b = b[1]
+        return f12_shape(d[1])
+    if d[0] == 'l':
+        return f12_shape(d[1])
+    if d[0] == 'u':
+        return any(f12_shape(m) for m in d[1])
+    return False
+
+
+def f13_shape(d: Any) -> bool:
+    """somewhere in the type: a restriction with patterns over a union that has a union (or a restriction of one) as
+    a direct member"""
+    if d[0] == 'r':
+        if 'pattern' in d[2]:
+            root = _root(d)
+            if root[0] == 'u' and any(_root(m)[0] == 'u' for m in root[1]):
+                return True
+        return f13_shape(d[1])
+    if d[0] == 'l':
+        return f13_shape(d[1])
+    if d[0] == 'u':
+        return any(f13_shape(m) for m in d[1])
+    return False
 
 
 def _dt_enum_literals(d: Any) -> list:
@@ -1010,6 +1173,30 @@ def one_case(ctx: Ctx, oracle: L.Oracle, batch: Optional[Batch], v11: bool, labe
     oracle.take()
     if iv is not valid:
         ctx.failure('is_valid() disagrees with the errors of a lax decode()', _pub(case), {'is_valid': iv, 'errors': impl['errs']})
+    # API coherence: a strict decode() raises exactly when the lax one collects an error, and returns the same value
+    from xmlschema.validators.exceptions import XMLSchemaValidationError as _VE
+    try:
+        strict_value, strict = t.decode(text, validation='strict', datetime_types=True, binary_types=True), 'ok'
+    except _VE:
+        strict_value, strict = None, 'raises'
+    except Exception as e:   # noqa
+        strict_value, strict = None, 'exc:' + type(e).__name__
+    oracle.take()
+    if strict != ('ok' if valid else 'raises'):
+        ctx.failure('strict decode() disagrees with the errors of a lax decode()', _pub(case),
+                    {'strict': strict, 'lax_errors': impl['errs'], 'lax_value': repr(impl['value'])})
+    elif valid and not py_equal(strict_value, impl['value']):
+        ctx.failure('strict decode() and lax decode() return different values', _pub(case),
+                    {'strict': repr(strict_value), 'lax': repr(impl['value'])})
+    # every pattern group of the regular-expression subset that the implementation evaluated: its verdict is
+    # membership in the language of the pattern (independent reading lib_datatypes.rx_match)
+    for pid, value, verdict in impl['pats']:
+        g = oracle.rxs.get(pid)
+        if g is not None:
+            ctx.count('pattern-verdict:judged')
+            if any(L.rx_match(r, value) for r in g) != verdict:
+                ctx.failure('pattern facet: the verdict differs from the language of the pattern', _pub(case),
+                            {'patterns': list(oracle.keep[pid - 1].regexps), 'value': value, 'impl': verdict})
     # ---- the property itself, by the independent reading ----
     spec = spec_type(d, v11, text)
     judged = spec != 'unjudged'
@@ -1080,7 +1267,8 @@ def one_case(ctx: Ctx, oracle: L.Oracle, batch: Optional[Batch], v11: bool, labe
             # no model available: the white-space finding is recognised by re-running on the XML-cleaned text
             _settle_pyws_without_model(ctx, case, t, text, oracle)
         return
-    req = {'type': tj, 'text': text, 'pats': impl['pats'], 'v11': v11, 'wsclass': 'xml', 'cdfix': True}
+    req = {'type': tj, 'text': text, 'pats': impl['pats'], 'v11': v11, 'wsclass': 'xml', 'cdfix': True,
+           'rxs': oracle.table(tj), 'chain': True}
     batch.reqs.append(req)
     batch.pend.append((case, impl))
 
@@ -1235,16 +1423,18 @@ def flush(ctx: Ctx, batch: Batch, drv: Driver) -> None:
         retry.append((case, want, mx, req))
     alts = []
     for case, want, mx, req in retry:
-        pyws, z7 = L.has_py_ws(case['text']), _zero7_case(case)
-        for ws, fix in (('py', True), ('xml', False), ('py', False)):
-            if (ws == 'py' and not pyws) or (not fix and not z7):
+        pyws, z7, f12 = L.has_py_ws(case['text']), _zero7_case(case), f12_shape(case['desc'])
+        for ws, fix, chain in (('py', True, True), ('xml', False, True), ('py', False, True), ('xml', True, False),
+                               ('py', True, False)):
+            if (ws == 'py' and not pyws) or (not fix and not z7) or (not chain and not f12):
                 continue
-            alts.append((case, want, ws, fix, dict(req, wsclass=ws, cdfix=fix)))
-    alt_ans = drv.query([a[4] for a in alts]) if alts else []
+            alts.append((case, want, ws, fix, chain, dict(req, wsclass=ws, cdfix=fix, chain=chain)))
+    alt_ans = drv.query([a[5] for a in alts]) if alts else []
     settled: dict[int, list] = {}
-    for (case, want, ws, fix, _), m in zip(alts, alt_ans):
+    for (case, want, ws, fix, chain, _), m in zip(alts, alt_ans):
         if _proj(m) == want and id(case) not in settled:
-            settled[id(case)] = (['C02-F4'] if ws == 'py' else []) + ([] if fix else ['C02-F5'])
+            settled[id(case)] = (['C02-F4'] if ws == 'py' else []) + ([] if fix else ['C02-F5']) + \
+                ([] if chain else ['C02-F12'])
     for case, want, mx, req in retry:
         fids = settled.get(id(case))
         if fids:
@@ -1300,6 +1490,13 @@ def _literals(d: Any) -> list[str]:
                     if n >= 0:
                         out += ['a' * n, 'ab' * n, ' '.join(['1'] * n), '0a' * n, ' ' + 'a' * n + ' ']
                         out += ['YWJj' * (n // 3) + ['', 'YQ==', 'YWI='][n % 3]]
+            elif k == 'pattern':
+                import random
+                for pt in (v if isinstance(v, list) else [v]):
+                    ast = L.rx_parse(pt)
+                    if ast is not None:
+                        prng = random.Random(sum(map(ord, pt)))
+                        out += [L.rx_sample(prng, ast) for _ in range(4)]
             elif k in ('totalDigits', 'fractionDigits'):
                 out += ['1' * v, '1' * (v + 1), '0.' + '1' * v, '0.' + '1' * (v + 1), '1.' + '0' * (v + 3),
                         '0' * 5 + '1' * v, '1' * v + '.0', '0.' + '0' * v + '1', '-' + '9' * v, '0.' + '0' * (v + 7)]
@@ -1312,7 +1509,19 @@ def _literals(d: Any) -> list[str]:
     return out
 
 
+def _local_findings(ctx: Ctx) -> None:
+    """findings of notes/findings/C02.json that the committed known_findings.json does not list yet (the integrator
+    merges them): `ctx.known_hit` reads their status from `ctx.known`"""
+    if not FINDINGS.exists():
+        return
+    listed = {e.get('id') for e in ctx.known}
+    for e in json.loads(FINDINGS.read_text()).get('findings', []):
+        if e.get('id') not in listed:
+            ctx.known.append(dict(e, _local=True))
+
+
 def run(ctx: Ctx, driver_ok: bool) -> None:
+    _local_findings(ctx)
     drv = Driver('drv_c02') if driver_ok else None
     oracle = L.Oracle()
     oracle.install()
@@ -1367,6 +1576,7 @@ def _run(ctx: Ctx, drv: Optional[Driver], oracle: L.Oracle, widen: bool = False)
         if batch is not None and drv is not None:
             flush(ctx, batch, drv)
         element_level(ctx, schema, good, v11, oracle)
+        document_level(ctx, drv, v11, good, oracle)
     ctx.extra['explanation'] = ('built-in types x boundary catalogue is exhaustive over the catalogue; mutations and '
                                 'derived types are seeded samples')
 
@@ -1618,6 +1828,34 @@ def unit_ops(ctx: Ctx, drv: Optional[Driver]) -> None:
                 continue
             add('date', {'text': text, 'v11': v11}, {'val': L.aval_json(v), 'str': str(v)}, case, True)
 
+    # ---- pattern facets of the regular-expression subset: the real XsdPatternFacets (elementpath's translation to a
+    #      Python `re`) against the language of the pattern (lib_datatypes.rx_match) and against the model's matcher
+    from xmlschema.validators.exceptions import XMLSchemaValidationError
+    pats = [p for p in dict.fromkeys(NUM_PATTERNS + STR_PATTERNS + UNION_PATTERNS) if L.rx_parse(p) is not None]
+    pats += list(dict.fromkeys(L.rx_xsd(L.rx_random(rng)) for _ in range(ctx.pick(60, 400))))
+    body = ''.join(f'<xs:simpleType name="P{i}"><xs:restriction base="xs:string"><xs:pattern value="{esc(pt)}"/>'
+                   f'</xs:restriction></xs:simpleType>' for i, pt in enumerate(pats))
+    try:
+        pschema = xmlschema.XMLSchema11(HEAD + body + '</xs:schema>')
+    except Exception as e:   # noqa
+        pschema = None
+        ctx.failure('a pattern of the regular-expression subset is refused by the schema parser', {'unit': 'rx'}, repr(e)[:300])
+    for i, pt in enumerate(pats if pschema is not None else []):
+        ast = L.rx_parse(pt)
+        facet = pschema.types[f'P{i}'].patterns
+        texts = [L.rx_sample(rng, ast) for _ in range(8)]
+        texts += [mutate(rng, x) for x in texts[:6] if x] + ['', ' ', 'a', '0', 'a\nb', 'é']
+        for text in dict.fromkeys(texts):
+            case = {'unit': 'rx', 'pattern': pt, 'text': text}
+            try:
+                facet(text)
+                got = True
+            except XMLSchemaValidationError:
+                got = False
+            if got != L.rx_match(ast, text):
+                ctx.failure('pattern facet: the verdict differs from the language of the pattern', case, {'impl': got})
+            add('rx', {'g': [L.rx_json(ast)], 'text': text}, {'match': got}, case, got)
+
     if drv is not None:
         for (op, case, impl), m in zip(pend, drv.query(reqs)):
             ctx.traces += 1
@@ -1658,7 +1896,16 @@ def replay_counterexamples(ctx: Ctx) -> None:
     from xmlschema.validators import helpers
     obs['count_digits 0E-7'] = list(count_digits(Decimal('0.0000000')))
     obs['python_to_decimal 1E-7'] = sch.maps.types[XSD + 'decimal'].from_python(Decimal('0.0000001'))
-    want = {'date 10000-02-29 (1.1)': 'raises ValueError', 'date 10003-02-29 (1.1)': '10003-02-29',
+    # pattern_chain_counterexample (C02-F12): int | string restricted by [0-9]{3}, restricted again by [0-9]*
+    pch = xmlschema.XMLSchema11(
+        HEAD + '<xs:simpleType name="u"><xs:union memberTypes="xs:integer xs:string"/></xs:simpleType>'
+        '<xs:simpleType name="r1"><xs:restriction base="u"><xs:pattern value="[0-9]{3}"/></xs:restriction></xs:simpleType>'
+        '<xs:simpleType name="r2"><xs:restriction base="r1"><xs:pattern value="[0-9]*"/></xs:restriction></xs:simpleType>'
+        '</xs:schema>')
+    obs['pattern chain: base refuses 12, derived accepts 12'] = [pch.types['r1'].is_valid('12'), pch.types['r2'].is_valid('12'),
+                                                                 pch.types['r2'].is_valid('123')]
+    want = {'pattern chain: base refuses 12, derived accepts 12': [False, True, True],
+            'date 10000-02-29 (1.1)': 'raises ValueError', 'date 10003-02-29 (1.1)': '10003-02-29',
             'date -9999-01-01 (1.1)': [-10000, '-10000-01-01', -10001],
             'hexBinary 4a<U+2003>': True, 'base64Binary Y<U+2003>WJj': True,
             'count_digits 0E-7': [0, 0], 'python_to_decimal 1E-7': '0.0000001'}
@@ -1736,12 +1983,154 @@ def element_level(ctx: Ctx, schema: Any, good: list, v11: bool, oracle: L.Oracle
     oracle.take()
 
 
+DOC_TEXTS = ['abc', '2020-01-01', '12', '123', 'true', 'x y', '!!', '1', 'a', 'zz', '2000-02-29', '12 345', 'true false', ' 12 ',
+             '0a', 'P1D', '-1', '1.5']
+
+
+def _doc_ok_text(x: str) -> bool:
+    return bool(x) and all(ord(c) >= 32 and not 0xd800 <= ord(c) <= 0xdfff and ord(c) not in (0xfffe, 0xffff) for c in x)
+
+
+def doc_eval(v11: bool, items: list, oracle: L.Oracle) -> dict:
+    """one document whose root carries the values `items` = [(desc, text, 'element'|'attribute')], validated in ONE lax
+    run (one validation context); per value: the verdict inside the document and the verdict of its own type on its
+    own (fresh context), both on the real code"""
+    import xmlschema
+    cls = xmlschema.XMLSchema11 if v11 else xmlschema.XMLSchema10
+    types, els, ats = [], [], []
+    for i, (d, _, how) in enumerate(items):
+        tname = f'xs:{d[1]}' if d[0] == 'b' else f'D{i}'
+        if d[0] != 'b':
+            types.append(f'<xs:simpleType name="D{i}">{desc_xsd(d)}</xs:simpleType>')
+        if how == 'attribute':
+            ats.append(f'<xs:attribute name="a{i}" type="{tname}"/>')
+        else:
+            els.append(f'<xs:element name="c{i}" type="{tname}"/>')
+    schema = cls(HEAD + ''.join(types) + '<xs:element name="root"><xs:complexType><xs:sequence>' + ''.join(els) +
+                 '</xs:sequence>' + ''.join(ats) + '</xs:complexType></xs:element></xs:schema>')
+    xml = '<root' + ''.join(f' a{i}="{esc(t)}"' for i, (_, t, how) in enumerate(items) if how == 'attribute') + '>' + \
+        ''.join(f'<c{i}>{esc(t)}</c{i}>' for i, (_, t, how) in enumerate(items) if how != 'attribute') + '</root>'
+    errors = list(schema.iter_errors(xml))
+    oracle.take()
+    in_doc: list = []
+    other: list = []
+    bad_paths = [e.path for e in errors]
+    reasons = ' | '.join(str(e.reason)[:80] for e in errors)
+    for i, (d, t, how) in enumerate(items):
+        if how == 'attribute':
+            in_doc.append(not any(e.path == '/root' and f'attribute a{i}=' in str(e.reason) for e in errors))
+        else:
+            in_doc.append(f'/root/c{i}' not in bad_paths)
+    own: list = []
+    tys: list = []
+    for i, (d, t, how) in enumerate(items):
+        ty = schema.maps.types[XSD + d[1]] if d[0] == 'b' else schema.types[f'D{i}']
+        tys.append(ty)
+        own.append(ty.is_valid(t))
+        oracle.take()
+    for e in errors:
+        if not (e.path == '/root' and str(e.reason).startswith('attribute a') or
+                any(e.path == f'/root/c{i}' for i in range(len(items)))):
+            other.append(e.path + ': ' + str(e.reason)[:60])
+    return {'xml': xml, 'in_doc': in_doc, 'own': own, 'types': tys, 'schema': schema, 'other': other, 'reasons': reasons,
+            'n_errors': len(errors)}
+
+
+def document_level(ctx: Ctx, drv: Optional[Driver], v11: bool, good: list, oracle: L.Oracle) -> None:
+    """values of sibling elements and attributes are validated in one shared validation context: each must be judged
+    by its own type only (what one value leaves in the context must not reach the next).  Property evaluation: the
+    verdict of every value inside the document equals the verdict of its type on its own; correspondence: the model's
+    `decodeSeq` over the same values."""
+    rng = ctx.rng
+    unions = [d for d in good if _contains_union(d) and spec_ok_for_doc(d)]
+    pat_unions = [d for d in unions if _has_pattern(d)]
+    others = [d for d in good if not _contains_union(d) and spec_ok_for_doc(d)]
+    directed = [d for d in directed_pattern_unions() if d in good]
+    docs: list = []
+    # directed: a pattern-restricted union followed by every other union, on texts no member / some member accepts
+    for a in directed:
+        if not _has_pattern(a):
+            continue
+        for b in directed[:6]:
+            for ta, tb in (('abc', '2020-01-01'), ('!!', '123'), ('x y', 'true'), ('123', 'abc')):
+                docs.append([(a, ta, 'element'), (b, tb, 'element')])
+        docs.append([(a, 'abc', 'attribute'), (directed[1], '2020-01-01', 'element')])
+        docs.append([(a, 'x y', 'attribute'), (directed[1], 'abc', 'attribute'), (a, '123', 'element')])
+    for _ in range(ctx.pick(150, 1500)):
+        k = rng.randrange(2, 5)
+        items = []
+        for _ in range(k):
+            src = rng.random()
+            pool = pat_unions if src < 0.45 and pat_unions else unions if src < 0.8 and unions else others or unions
+            if not pool:
+                continue
+            d = rng.choice(pool)
+            cand = [x for x in DOC_TEXTS + _literals(d) if _doc_ok_text(x)]
+            items.append((d, rng.choice(cand), 'attribute' if rng.random() < 0.25 else 'element'))
+        if len(items) >= 2:
+            docs.append(items)
+    reqs, pend = [], []
+    for items in docs:
+        items = [(d, t if how != 'attribute' else ' '.join(t.split()) or 'a', how) for d, t, how in items]
+        case = {'v': '1.1' if v11 else '1.0', 'through': 'document',
+                'items': [{'desc': d, 'text': t, 'as': how} for d, t, how in items]}
+        try:
+            r = doc_eval(v11, items, oracle)
+        except Exception as e:   # noqa
+            ctx.failure('lax validation of a document raises', case, repr(e)[:200])
+            continue
+        case['doc'] = r['xml']
+        nontrivial = not all(r['own'])
+        ctx.case(case, nontrivial, tag=f"{case['v']}/document")
+        ctx.count('document:values', len(items))
+        if r['in_doc'] != r['own'] or r['other']:
+            pos = next((i for i, (x, y) in enumerate(zip(r['in_doc'], r['own'])) if x != y), None)
+            ctx.failure('a value inside a document is judged differently than by its own type', case,
+                        {'position': pos, 'valid_in_document': r['in_doc'], 'valid_for_own_type': r['own'],
+                         'other_error_paths': r['other'], 'reasons': r['reasons']})
+        if drv is not None:
+            try:
+                tjs = [L.type_json(ty, oracle) for ty in r['types']]
+            except Unsupported:
+                continue
+            pats: list = []
+            for ty, (d, t, how) in zip(r['types'], items):
+                pats += impl_eval(ty, t, oracle)['pats']
+            rxs: dict = {}
+            for tj in tjs:
+                for i, g in oracle.table(tj):
+                    rxs[i] = g
+            reqs.append({'seq': [{'type': tj, 'text': t} for tj, (_, t, _) in zip(tjs, items)], 'pats': pats, 'v11': v11,
+                         'wsclass': 'xml', 'cdfix': True, 'chain': True, 'rxs': [[i, g] for i, g in rxs.items()]})
+            pend.append((case, r))
+    if drv is not None and reqs:
+        for (case, r), m in zip(pend, drv.query(reqs)):
+            ctx.traces += 1
+            if 'err' in m:
+                ctx.mismatch('document', case, r['in_doc'], {'driver-error': m['err']})
+                continue
+            model = [not x['errs'] for x in m['seq']]
+            if model != r['in_doc'] or m['slot']:
+                # (C02-F4/F12: white-space class, dropped patterns: the type-level run settles those; here only the
+                #  values on which the type-level verdict of the real code agrees with the model are compared)
+                if [a for a, b in zip(model, r['own']) if a != b]:
+                    ctx.count('document:type-level-difference')
+                    if model != r['in_doc'] and r['in_doc'] == r['own']:
+                        continue
+                ctx.mismatch('document', case, r['in_doc'], {'valid': model, 'slot': m['slot']})
+
+
+def spec_ok_for_doc(d: Any) -> bool:
+    """types usable in a generated document: no QName/NOTATION/ID-like built-ins (document-wide constraints)"""
+    return not (_all_builtin_names(d) & {'QName', 'NOTATION', 'ID', 'IDREF', 'ENTITY', 'error'})
+
+
 def reconfirm_known(ctx: Ctx) -> None:
     """replay the witnesses of notes/findings/C02.json on the real code; print KNOWN-FINDING lines for the
     entries that are not yet in known_findings.json (the integrator merges them)"""
     if not FINDINGS.exists():
         return
-    listed = {e['id'] for e in ctx.known}
+    listed = {e['id'] for e in ctx.known if not e.get('_local')}
     for e in json.loads(FINDINGS.read_text()).get('findings', []):
         if e.get('status') != 'known':
             continue
@@ -1773,6 +2162,7 @@ def search(ctx: Ctx) -> None:
     """a tie broke without a failing input: the family of the thorough tier (same generators, same sizes, same known-
     finding matchers through `one_case`), property evaluation only (no model: the white-space findings are settled by
     `_settle_pyws_without_model`).  On the unchanged tree it reports nothing (tools/search_clean.py C02)."""
+    _local_findings(ctx)
     oracle = L.Oracle()
     oracle.install()
     saved = ctx.tier
@@ -1788,8 +2178,9 @@ def search(ctx: Ctx) -> None:
 def replay(ctx: Ctx, obj: dict) -> int:
     import xmlschema
     print(json.dumps(obj, indent=1, default=str)[:3000])
+    _local_findings(ctx)
     case = obj.get('input') or (obj.get('first_mismatches') or [{}])[0].get('case')
-    if not case or 'desc' not in case:
+    if not case or ('desc' not in case and case.get('through') != 'document'):
         return 0
 
     def tup(d):
@@ -1802,8 +2193,39 @@ def replay(ctx: Ctx, obj: dict) -> int:
                 return ('l', tup(d[1]))
             return tuple(d)
         return d
-    d = tup(case['desc'])
     v11 = case.get('v') == '1.1'
+    if case.get('through') == 'document':
+        # values of one document validated in one lax run: each against its own type only
+        items = [(tup(i['desc']), i['text'], i['as']) for i in case['items']]
+        oracle = L.Oracle()
+        oracle.install()
+        try:
+            r = doc_eval(v11, items, oracle)
+            print('DOCUMENT            :', r['xml'])
+            print('REAL CODE, in the document (valid per value):', r['in_doc'], '  errors:', r['reasons'])
+            print('REAL CODE, own type on its own              :', r['own'])
+            print('XSD READING                                 :',
+                  [(lambda x: x if x == 'unjudged' else x[0])(spec_type(d, v11, t)) for d, t, _ in items])
+            if (LEAN / '.lake/build/bin/drv_c02').exists():
+                try:
+                    tjs = [L.type_json(ty, oracle) for ty in r['types']]
+                    pats: list = []
+                    for ty, (d, t, how) in zip(r['types'], items):
+                        pats += impl_eval(ty, t, oracle)['pats']
+                    rxs = {i: g for tj in tjs for i, g in oracle.table(tj)}
+                    m = Driver('drv_c02').query([{'seq': [{'type': tj, 'text': t} for tj, (_, t, _) in zip(tjs, items)],
+                                                  'pats': pats, 'v11': v11, 'wsclass': 'xml', 'cdfix': True, 'chain': True,
+                                                  'rxs': [[i, g] for i, g in rxs.items()]}])[0]
+                    print('LEAN MODEL (decodeSeq, valid per value, slot):', [not x['errs'] for x in m.get('seq', [])], m.get('slot'))
+                except Unsupported:
+                    pass
+        finally:
+            oracle.uninstall()
+        if r['in_doc'] != r['own'] or r['other']:
+            print('FAILS ON THE REAL CODE: a value inside a document is judged differently than by its own type')
+            return 1
+        return 0
+    d = tup(case['desc'])
     cls = xmlschema.XMLSchema11 if v11 else xmlschema.XMLSchema10
     if d[0] == 'b':
         schema = cls(HEAD + f'<xs:element name="b_{d[1]}" type="xs:{d[1]}"/></xs:schema>')
